@@ -57,6 +57,20 @@ def _worker(task):
         if isinstance(out, dict):
             out = [out]
         out = list(out)
+        # solver statistics measured by the engines for this task; attributed to the task's first record when the
+        # harness did not split them per obligation
+        try:
+            from . import jx as _jx
+            tq = _jx.STATS.queries + _jx.DEC.n
+            ts = _jx.STATS.solver_s + _jx.DEC.t
+            have_q = sum(int(r.get("queries", 0)) for r in out)
+            have_s = sum(float(r.get("solver_s", 0.0)) for r in out)
+            if out and tq > have_q:
+                out[0]["queries"] = int(out[0].get("queries", 0)) + (tq - have_q)
+            if out and ts > have_s:
+                out[0]["solver_s"] = float(out[0].get("solver_s", 0.0)) + (ts - have_s)
+        except Exception:
+            pass
         for r in out:
             r.setdefault("group", name)
         return dict(task=name, records=out, wall_s=time.time() - t0)
